@@ -119,58 +119,88 @@ def r1_parseinfo(a, tier):
         floor=4,
     )
     mp = a.p.func(f'{ENGINE}.make_parseinfo')
-    name_p, pos_p = mp.params[1], mp.params[2]
     ctor = [n for n in walk_no_defs(mp.node) if isinstance(n, ast.Call) and dotted(n.func) == 'ParseInfo']
     if len(ctor) != 1:
         raise AnalysisError('make_parseinfo: expected one ParseInfo(...) construction')
     from ..rules.common import through_locals
 
-    def res(e):
-        """text of E with single-assignment locals looked through (endpos -> self.pos, cur -> self.cursor)"""
-        e = through_locals(mp, e)
+    def res(fn, e):
+        """text of E with single-assignment locals of FN looked through (endpos -> self.pos, cur -> self.cursor)"""
+        e = through_locals(fn, e)
         if isinstance(e, ast.Call):
-            return f'{res(e.func)}({", ".join(res(x) for x in e.args)})'
+            return f'{res(fn, e.func)}({", ".join(res(fn, x) for x in e.args)})'
         if isinstance(e, ast.Attribute):
-            return f'{res(e.value)}.{e.attr}'
+            return f'{res(fn, e.value)}.{e.attr}'
         return norm(e)
-    kw = {k.arg: res(k.value) for k in ctor[0].keywords}
+
+    engine_fns = [f for f in a.p.functions.values() if f.qualname.startswith('tatsu.contexts.')]
+
+    def origins(fn, e, depth=0) -> set:
+        """where the value of E (an expression of FN) comes from, followed through parameters to the outermost callers in the
+        engine: a set of (function, annotation-of-the-root-name, text)"""
+        e = through_locals(fn, e)
+        if isinstance(e, ast.Name) and e.id in fn.params and depth < 6:
+            sites = []
+            for g in engine_fns:
+                for n in walk_no_defs(g.node):
+                    if isinstance(n, ast.Call) and isinstance(n.func, ast.Attribute) and n.func.attr == fn.name and norm(n.func.value) == 'self':
+                        params = fn.params[1:] if fn.params and fn.params[0] == 'self' else fn.params
+                        arg = None
+                        if e.id in params and params.index(e.id) < len(n.args):
+                            arg = n.args[params.index(e.id)]
+                        for k in n.keywords:
+                            if k.arg == e.id:
+                                arg = k.value
+                        sites.append((g, arg))
+            if sites:
+                out = set()
+                for g, arg in sites:
+                    out |= origins(g, arg, depth + 1) if arg is not None else {(g.name, '?', '<not passed>')}
+                return out
+        root = e
+        while isinstance(root, ast.Attribute):
+            root = root.value
+        ann = ''
+        if isinstance(root, ast.Name):
+            for x in ast.walk(fn.node.args):
+                if isinstance(x, ast.arg) and x.arg == root.id and x.annotation is not None:
+                    ann = norm(x.annotation)
+        return {(fn.name, ann, res(fn, e))}
+
+    kwn = {k.arg: k.value for k in ctor[0].keywords}
+    kw = {k: res(mp, v) for k, v in kwn.items()}
     POS = ('self.pos', 'self.cursor.pos', 'self.state.cursor.pos')
-    want = {'rule': (name_p,), 'pos': (pos_p,), 'line': (f'self.cursor.lineat({pos_p})',),
-            'endline': tuple(f'self.cursor.lineat({x})' for x in POS), 'endpos': POS}
-    for fld, ws in want.items():
+    # rule <- the name of the INVOKED rule (a RuleInfo parameter of the function that starts the flow), never the call stack
+    rule_or = origins(mp, kwn['rule']) if 'rule' in kwn else set()
+    ok = bool(rule_or) and all(ann.endswith('RuleInfo') and text.endswith('.name') and text.count('.') == 1 for _f, ann, text in rule_or)
+    rep.add({'ParseInfo_field': 'rule', 'comes_from': sorted(f'{f}: {t}' for f, _a, t in rule_or), 'ok': ok})
+    if not ok:
+        rep.fail(mp.qualname, 'field:rule', f'ParseInfo.rule comes from {sorted(f"{f}: {t}" for f, _a, t in rule_or)}; required: the name of the '
+                 f'invoked rule (`<ri>.name` of the RuleInfo the caller was invoked with) on every flow - the top of the call stack is '
+                 f'the caller for a @nostak rule', mp.loc)
+    pos_or = origins(mp, kwn['pos']) if 'pos' in kwn else set()
+    ok = bool(pos_or) and all(ann.endswith('MemoKey') and text.endswith('.pos') and text.count('.') == 1 for _f, ann, text in pos_or)
+    rep.add({'ParseInfo_field': 'pos', 'comes_from': sorted(f'{f}: {t}' for f, _a, t in pos_or), 'ok': ok})
+    if not ok:
+        rep.fail(mp.qualname, 'field:pos', f'ParseInfo.pos comes from {sorted(f"{f}: {t}" for f, _a, t in pos_or)}; required: the position of '
+                 f'the memo key (`<key>.pos`, taken after whitespace skipping) on every flow', mp.loc)
+    line_arg = None
+    if 'line' in kwn and isinstance(through_locals(mp, kwn['line']), ast.Call):
+        lc = through_locals(mp, kwn['line'])
+        if res(mp, lc.func) == 'self.cursor.lineat' and len(lc.args) == 1:
+            line_arg = lc.args[0]
+    ok = line_arg is not None and origins(mp, line_arg) == pos_or
+    rep.add({'ParseInfo_field': 'line', 'from': kw.get('line'), 'ok': ok})
+    if not ok:
+        rep.fail(mp.qualname, 'field:line', f'ParseInfo.line is built from `{kw.get("line")}`, required cursor.lineat() of the start offset', mp.loc)
+    for fld, ws in {'endline': tuple(f'self.cursor.lineat({x})' for x in POS), 'endpos': POS}.items():
         ok = kw.get(fld) in ws
         rep.add({'ParseInfo_field': fld, 'from': kw.get(fld), 'want': ws[0], 'ok': ok})
         if not ok:
-            rep.fail(mp.qualname, f'field:{fld}', f'ParseInfo.{fld} is built from `{kw.get(fld)}`, required `{ws[0]}`'
-                     + (' (the position at rule exit)' if fld.startswith('end') else ''), mp.loc)
+            rep.fail(mp.qualname, f'field:{fld}', f'ParseInfo.{fld} is built from `{kw.get(fld)}`, required `{ws[0]}` (the position at rule exit)', mp.loc)
     if kw.get('endline', '').replace('self.cursor.lineat(', '').rstrip(')') != kw.get('endpos'):
         rep.fail(mp.qualname, 'field:endline-endpos', f'ParseInfo.endline `{kw.get("endline")}` is not the line of ParseInfo.endpos '
                  f'`{kw.get("endpos")}`', mp.loc)
-    # callers
-    for f in a.p.functions.values():
-        if not f.qualname.startswith('tatsu.contexts.'):
-            continue
-        for n in walk_no_defs(f.node):
-            if isinstance(n, ast.Call) and dotted(n.func) in ('self.make_parseinfo', 'self.set_parseinfo'):
-                args = [norm(x) for x in n.args]
-                ri = next((p for p in f.params if p == 'ri'), None)
-                if dotted(n.func) == 'self.set_parseinfo':
-                    if f.qualname.endswith('.set_parseinfo'):
-                        continue
-                    name_arg, pos_arg = (args + [None, None, None])[1:3]
-                else:
-                    name_arg, pos_arg = (args + [None, None])[0:2]
-                inner = f.qualname.endswith('.set_parseinfo')
-                ok_name = name_arg == f'{ri}.name' if ri else (inner and name_arg in f.params)
-                ok_pos = pos_arg in ('key.pos', 'pos') or (inner and pos_arg in f.params)
-                rep.add({'caller': f.qualname, 'call': norm(n), 'rule_name_argument': name_arg, 'position_argument': pos_arg,
-                         'ok': bool(ok_name and ok_pos)})
-                if not ok_name:
-                    rep.fail(f.qualname, f'parseinfo-name:{norm(n)}', f'`{norm(n)}` passes `{name_arg}` as the rule name of the parse '
-                             f'information; required: the name of the invoked rule ({ri}.name)', f'{f.module.relpath}:{n.lineno}')
-                if not ok_pos:
-                    rep.fail(f.qualname, f'parseinfo-pos:{norm(n)}', f'`{norm(n)}` passes `{pos_arg}` as the start offset; required: the '
-                             f'memo-key position (taken after whitespace skipping)', f'{f.module.relpath}:{n.lineno}')
     # semantics_call receives pos=key.pos from rule_call
     rc = a.p.func(f'{ENGINE}.rule_call')
     sc = [n for n in walk_no_defs(rc.node) if isinstance(n, ast.Call) and dotted(n.func) == 'self.semantics_call']
